@@ -416,6 +416,11 @@ class L1Run:
                         # first frame and on every third one), or on none (== 0)
                         if self.accepted_counter % 3 == 1 or (self.accepted_counter % 3 == 2 and i % 3 != 0):
                             pp.vpot, pp.ekin = float(pp.order[0]) + 0.125 + 0.5 * i, 0.5 + 0.25 * i
+                            # energies of exactly zero are energies (a frame at rest, the zero of the potential)
+                            if i % 4 == 1:
+                                pp.vpot = 0.0
+                            if i % 4 == 2:
+                                pp.ekin = 0.0
                 trial.status = "ACC"
             else:
                 trial = old
